@@ -64,6 +64,18 @@ def pushdown_predicates(expression: E, dialect: DialectType = None) -> E:
                             pushdown_allowed = False
                             break
 
+                # a full join null-extends every source that precedes it (and its own source), so a
+                # WHERE predicate on one of those can't move below the join
+                full_join_index = max(
+                    (i for i, join in enumerate(joins) if join.side == "FULL"), default=-1
+                )
+                if full_join_index >= 0:
+                    selected_sources = {
+                        k: (node, source)
+                        for k, (node, source) in selected_sources.items()
+                        if join_index.get(k, -1) > full_join_index
+                    }
+
                 if pushdown_allowed:
                     pushdown(where.this, selected_sources, scope_ref_count, dialect, join_index)
 
